@@ -10,3 +10,5 @@ import SecsModel.Props.C16
 #print axioms SecsModel.Props.C16.reassembly
 #print axioms SecsModel.Proofs.SecsIReasm.reassemble_local
 #print axioms SecsModel.Proofs.SecsIReasm.runK_split
+#print axioms SecsModel.Props.C16.reassembly_key_is_system_bytes
+#print axioms SecsModel.Props.C16.reassembly_statements
